@@ -228,3 +228,26 @@ def zoo_portfolio_traces(chk, seeds, routes=('mono', 'split', 'io'), zoo_list=No
 # portfolios for which setup_split_optim_problem is not applicable by construction (asset state across intervals is
 # declared once: plants' initial state, linked assets; order books / periodic assets need the whole grid)
 SPLIT_UNSUPPORTED = set()
+
+
+def harvested_test_suite(chk, clauses, clause_filter):
+    """thorough tiers: every output the repository's own tests produce (hook in io.extract_output, guard EAO_VERIF_TRACE) validated by Trace_Portfolio"""
+    from harness import harvest
+    recs, summary = harvest.run_tests()
+    chk.notes['harvest_test_suite'] = dict(records=len(recs), pytest=summary)
+    failed = [r for r in recs if r.get('event') != 'extract_output']
+    if failed:
+        raise MachineryError('trace hook failed inside the library: %s' % failed[:2])
+    traces = [t for t in (harvest.to_trace(r, chk=clauses) for r in recs) if t]
+    if not traces:
+        raise MachineryError('test-suite harvesting produced no trace (hook not active?)')
+    verdicts, st = REC.validate_traces(traces, module='Trace_Portfolio')
+    chk.add_tlc(st)
+    chk.traces += len(traces)
+    for k, ((line, v), tr) in enumerate(zip(verdicts, traces)):
+        if v == 'accepted' or (clause_filter and not clause_filter(v)):
+            chk.cnt['harvested_outputs_accepted'] += 1
+            chk.nontrivial(('harvest', k))
+        else:
+            chk.violation(dict(check='harvested_output', guard=v.split('@')[0], assets='|'.join(tr['names'])[:80], T=tr['T']),
+                          'output produced by the repository tests rejected at line %d: %s' % (line, v), dict(names=tr['names'], T=tr['T']))
